@@ -208,7 +208,8 @@ TABLE = {
             "positional argument, keyword argument, list element, array index, scalar initialiser, loop list, metadata "
             "option; reserved names (qN, name, version, target, type) are refused for scalars and arrays with identifier "
             "and position; float/complex/string modes are refused, in every statement including calls of included programs "
-            "(any include dictionary); complex values are refused for int/float scalars and "
+            "(any include dictionary); an array written as one template parameter without a declared shape is refused "
+            "(Props/C11Array.lean); complex values are refused for int/float scalars and "
             "array elements; wrongly typed loop values (C06); include calls with wrong arity or keywords are refused; a "
             "failing item anywhere makes the whole walk fail. Oracle: fault injection at random positions of random scripts.",
             "Lean 4 proof (induction over expressions; error propagation through folds) + fault injection", "DESIGN.md 7 (C11)",
@@ -250,7 +251,8 @@ TABLE = {
             "theorems about the model lexer on ARBITRARY text: a `#` comment up to the line end emits no token and its "
             "text is irrelevant; a run of spaces that is not exactly four long emits no token, so the amount of spacing "
             "is irrelevant; LF, CR LF and a lone CR are each exactly one NEWLINE and give the same token kinds behind "
-            "them; a tab and exactly four spaces are each one TAB. Still differential: that the shipped lexer behaves "
+            "them; a tab and exactly four spaces are each one TAB; a string literal is ONE STR token whatever it contains (a `#` "
+            "or blanks inside it are text). Still differential: that the shipped lexer behaves "
             "as the model lexer (whose rules are proved to be the grammar file's by C14) - LEX correspondence on every "
             "layout variant; runs of blanks that mix tabs and spaces are covered by that correspondence only.",
             "Lean 4 proof (parser inverts printer under all layouts; lexer lemmas on arbitrary text) + lexer correspondence", "DESIGN.md 7 (C18)",
